@@ -682,7 +682,7 @@ SUPPORT_INLINE_NODEBUG T fill_trailing_bits(const T& value) noexcept {
 template<typename T>
 [[nodiscard]]
 SUPPORT_INLINE constexpr bool is_lsb_mask(const T& x) noexcept {
-  return x && ((std_uint(x) + 1u) & std_uint(x)) == 0;
+  return x && ((as_std_uint(x) + 1u) & as_std_uint(x)) == 0;
 }
 
 // Tests whether the given value contains at least one bit or whether it contains more bits but all consecutive.
